@@ -4,7 +4,7 @@
 cd "$(dirname "$0")/.."
 seeds=${1:-"1 2 3 4 5"}; shift
 props=${@:-C01 C02 C03 C04 C05 C06 C07 C08 C09 C10 C11 C12 C13 C14 C15 C17 C18 C19 C20}
-bad=0
+bad=0; mkdir -p build/tmp
 for s in $seeds; do
   for p in $props; do
     VERIF_SEED=$s ./check $p > build/tmp/sweep-$p-$s.log 2>&1; rc=$?
